@@ -189,3 +189,35 @@ def worker_scenario(rng, size='quick', **over):
     lines += queries('c15', keys, [])
     lines += ['close', 'open', 'states', 'counts']
     return lines
+
+
+def restart_scenario(rng, size='quick', **over):
+    """C03: a history, then the storage is closed and reopened (eager/lazy) on copies of the directory with every
+    index-damage pattern; answers and next id must not change"""
+    c, line = cfg_line(rng, **over)
+    klen = c['key']
+    keys = mk_keys(rng, klen, rng.randint(2, 5))
+    absent = absent_keys(rng, klen, keys)
+    lines = [line, 'states']
+    seed = 1
+    n_ops = rng.randint(6, 16) if size == 'quick' else rng.randint(10, 60)
+    for i in range(n_ops):
+        x = rng.random()
+        if x < 0.2:
+            lines += [rng.choice(['close_active', 'create_active', 'restore_active', 'force always', 'settle']), 'states']
+        elif x < 0.3:
+            lines += [rng.choice(['restart', 'restart lazy']), 'states']
+        else:
+            k = rng.choice(keys)
+            if rng.random() < 0.2:
+                lines += [f'd {k} {rng.choice(TS_POOL)} - {rng.choice([0, 1])}', 'states']
+            else:
+                lines += [f'w {k} {rng.choice(TS_POOL)} {rng.choice(METAS_W)} {rng.choice(DLENS)} {seed % 250 + 1}', 'states']
+                seed += 1
+        if rng.random() < 0.15 or i == n_ops - 1:
+            if rng.random() < 0.5:
+                lines += ['settle']
+            mode = 'kinds' if (size == 'quick' or rng.random() < 0.7) else f'lens:{rng.choice([1, 7, 13])}'
+            lines += [f'dmgsweep {mode}' + (' lazy' if rng.random() < 0.3 else ''), 'states']
+            lines += queries('all', keys, absent)
+    return lines
